@@ -19,7 +19,14 @@ import (
 	"strings"
 )
 
-const repoDir = "/repo"
+// repoDir is the tree under test (VERIF_REPO overrides it, for background
+// runs against a snapshot).
+var repoDir = func() string {
+	if d := os.Getenv("VERIF_REPO"); d != "" {
+		return d
+	}
+	return "/repo"
+}()
 
 // verifDir is where the simulator sources, evidence and replays live
 // (VERIF_DIR, set by verif.sh to its own directory).
@@ -197,10 +204,10 @@ func (rw *rewriter) file(fset *token.FileSet, f *ast.File, path string) (poolRef
 			return true
 		})
 	}
-	timeTouched := false
+	var touched map[string]bool
 	if os.Getenv("VERIF_NO_INNER") == "" {
 		if rw.typed {
-			timeTouched = rw.retime(f)
+			touched = rw.retime(f)
 			rw.recvExprs(f)
 		}
 		points = rw.instrument(f)
@@ -226,10 +233,22 @@ func (rw *rewriter) file(fset *token.FileSet, f *ast.File, path string) (poolRef
 			f.Imports = append(f.Imports, spec)
 		}
 	}
-	if timeTouched {
-		// keep the "time" import used whatever was re-pointed
+	for _, is := range f.Imports {
+		// keep re-pointed imports used whatever was replaced
+		p, _ := strconv.Unquote(is.Path.Value)
+		name := filepath.Base(p)
+		if is.Name != nil {
+			name = is.Name.Name
+		}
+		if !touched[name] {
+			continue
+		}
+		keep := map[string]string{"time": "Nanosecond", "runtime": "GOOS"}[p]
+		if keep == "" {
+			continue
+		}
 		f.Decls = append(f.Decls, &ast.GenDecl{Tok: token.VAR, Specs: []ast.Spec{&ast.ValueSpec{
-			Names: []*ast.Ident{ast.NewIdent("_")}, Type: &ast.SelectorExpr{X: ast.NewIdent("time"), Sel: ast.NewIdent("Duration")}}}})
+			Names: []*ast.Ident{ast.NewIdent("_")}, Values: []ast.Expr{&ast.SelectorExpr{X: ast.NewIdent(name), Sel: ast.NewIdent(keep)}}}}})
 	}
 	var buf bytes.Buffer
 	f.Comments = nil
@@ -247,9 +266,11 @@ func simrtCall(name string, args ...ast.Expr) ast.Stmt {
 	return &ast.ExprStmt{X: &ast.CallExpr{Fun: simrtFn(name), Args: args}}
 }
 
-// retime re-points time.Now/Since/Until/Sleep/After/Tick to the simulated clock.
-func (rw *rewriter) retime(f *ast.File) bool {
-	touched := false
+// retime re-points time.Now/Since/Until/Sleep/After/Tick to the simulated
+// clock, and runtime.SetFinalizer/Gosched to their simulated counterparts. It
+// returns the packages whose import must be kept alive artificially.
+func (rw *rewriter) retime(f *ast.File) map[string]bool {
+	touched := map[string]bool{}
 	ast.Inspect(f, func(node ast.Node) bool {
 		sel, ok := node.(*ast.SelectorExpr)
 		if !ok {
@@ -260,13 +281,22 @@ func (rw *rewriter) retime(f *ast.File) bool {
 			return true
 		}
 		pn, ok := rw.info.Uses[id].(*types.PkgName)
-		if !ok || pn.Imported().Path() != "time" {
+		if !ok {
 			return true
 		}
-		switch sel.Sel.Name {
-		case "Now", "Since", "Until", "Sleep", "After", "Tick":
-			id.Name = "simrt"
-			touched = true
+		switch pn.Imported().Path() {
+		case "time":
+			switch sel.Sel.Name {
+			case "Now", "Since", "Until", "Sleep", "After", "Tick":
+				touched[id.Name] = true
+				id.Name = "simrt"
+			}
+		case "runtime":
+			switch sel.Sel.Name {
+			case "SetFinalizer", "Gosched":
+				touched[id.Name] = true
+				id.Name = "simrt"
+			}
 		}
 		return true
 	})
